@@ -95,6 +95,24 @@ def _callsig(col, rule="C10.R1"):
                    ("indexed", S.show(state, False), False), ("all", S.show(state, False), True)}
     col.add(rule, "_set_state#assigns-active", ok, sx.loc(sx.fn), "_set_state assigns the requested state to the selected entries only",
             str(sorted(pairs)))
+    # a single position or pattern is wrapped into a list exactly when it is one (a bare string would otherwise be iterated by character)
+    pname = entries[2] if entries[:1] == ("param",) else None
+    for nid, nd in sx.cfg.nodes.items():
+        st = nd.ast
+        if nd.kind == "stmt" and isinstance(st, ast.Assign) and len(st.targets) == 1 and isinstance(st.targets[0], ast.Name) and st.targets[0].id == pname \
+                and isinstance(st.value, (ast.List, ast.Tuple)) and len(st.value.elts) == 1 and isinstance(st.value.elts[0], ast.Name) and st.value.elts[0].id == pname:
+            cs = sx.conds(nid)
+            single = [c for c in cs if (c[:2] == ("bool", "or") and all(S.is_call_of(x, ("glob", "isinstance")) for x in c[2])) or
+                      (S.is_call_of(c, ("glob", "isinstance")) and c[2][0] == entries)]
+            neg = [c for c in cs if c[:2] == ("uop", "not") and S.is_call_of(c[2], ("glob", "isinstance")) and c[2][2][0] == entries]
+            kinds = set()
+            for c in single:
+                for x in (c[2] if c[:2] == ("bool", "or") else (c,)):
+                    t_ = x[2][1]
+                    kinds |= {y[1] for y in (t_[1] if t_[:1] == ("tuple",) else (t_,)) if y[:1] == ("glob",)}
+            if single or neg:
+                col.add(rule, "_set_state#single-entry-wrapped-when-int-or-str", kinds == {"int", "str"} and not neg, sx.loc(nid),
+                        "`entries = [entries]` runs exactly for a single int or str", str([S.show(c) for c in cs][:4]))
     # ... each form under its own test: True -> all on, False -> all to the opposite, an int -> that entry, a string -> the entries whose
     # attribute it fully matches; nothing at all for None
     attr_p = sx.pnamed("attr") if "attr" in sx.sym.params else None
